@@ -196,7 +196,7 @@ def run(rec, tier, seed):
     quick = tier == "quick"
     ns = campaign.NCPU
     jobs = []
-    top = 1200 if quick else 100_000
+    top = 600 if quick else 100_000
     step = max(1, top // (ns * 4))
     jobs += [("øC-range", lo, min(top + 1, lo + step)) for lo in range(1, top + 1, step)]
     ks = list(range(1, 51))
@@ -211,7 +211,7 @@ def run(rec, tier, seed):
     else:
         jobs += [("τβ-small", bases[i::ns * 4], 2000) for i in range(ns * 4)]
         jobs += [("τβ-boundary", bases[i::ns * 2], 40) for i in range(ns * 2)]
-    n = 40 if quick else 3000
+    n = 25 if quick else 3000
     jobs += [("hyp", seed * 1000 + i, n) for i in range(ns)]
     campaign.parallel(rec, _shard, jobs)
     rec.exhaustive.append(f"øD on every dictionary word (alone and in a sentence); øC on 1..{top}; øc on all strings of length<={2 if quick else 3} over [a-z ] not starting with a space; "
